@@ -93,7 +93,7 @@ structure ChunkId where
   file : Nat
   off : Nat
   size : Nat
-deriving DecidableEq, Repr
+deriving DecidableEq, Hashable, Repr
 
 /-- The uncompressed chunk cache (`reader.cache`). -/
 abbrev Cache := ChunkId → Option Bytes
@@ -304,8 +304,8 @@ target entry at index `ti`: the other chunks handed to the pre-reader, or `none`
 error) or the target is not met. `nr` is tracked as in the code assuming every pre-read chunk is
 consumed (cached chunks are skipped by the callback without reading; the next discard then skips
 them, and the count still works out because `InnerOffset` only grows inside a member). -/
-def preRunMem (ents : List TocEnt) (ti : Nat) : Option (List ChunkId) :=
-  match (topIndices ents)[ti]?, ents[ti]? with
+def preRunMemWith (tops : List Nat) (ents : List TocEnt) (ti : Nat) : Option (List ChunkId) :=
+  match tops[ti]?, ents[ti]? with
   | some top, some tgt =>
     match ents[top]? with
     | none => none
@@ -321,6 +321,11 @@ def preRunMem (ents : List TocEnt) (ti : Nat) : Option (List ChunkId) :=
       let _ := tgt
       go (ents.drop top) top 0 false []
   | _, _ => none
+
+/-- `preRunMemWith` with the `chunkTopIndex` values computed as `initFields` does (the driver
+computes them once per layer). -/
+def preRunMem (ents : List TocEnt) (ti : Nat) : Option (List ChunkId) :=
+  preRunMemWith (topIndices ents) ents ti
 
 /-- db store (`readInnerChunks`): every other non-empty chunk stored under the same stream offset;
 a stream holding a single chunk at inner offset 0 is read without pre-reading. -/
